@@ -180,6 +180,28 @@ def run(index, tier="quick", seed=0) -> Result:
         res.bad("DET-SIGN", "ConvexPolyhedron._calculate_signed_volume", f"{sv.file}:{hits[0].lineno}", "absolute value of the per-simplex determinants before the sum")
     else:
         res.ok("DET-SIGN", "ConvexPolyhedron._calculate_signed_volume")
+    # ---------------------------------------------------------------- FC-1 face centroids are area-weighted
+    from ..interp import Interp
+    fc = index.effective_prop(cls, "face_centroids")
+    if fc is None or fc.getter is None:
+        raise AnalysisError("anchor vanished: ConvexPolyhedron.face_centroids")
+    it = Interp(index)
+    r = it.run_entry(fc.getter, cls)
+    stores = [e for e in r["events"] if e.type == "write" and e.loc == ("self", "_face_centroids") and e.rhs is not None]
+    weighted = False
+    for e in stores:
+        vals = [e.rhs] + ([e.rhs.elem] if e.rhs.elem is not None else [])
+        for v in vals:
+            if ("self", "_simplex_areas") in v.deps or ("call", "_find_triangle_array_area") in v.deps:
+                weighted = True
+    if not stores:
+        res.not_in_fragment.append("FC-1: no store into _face_centroids found")
+    elif weighted:
+        res.ok("FC-1", "ConvexPolyhedron.face_centroids")
+    else:
+        res.bad("FC-1", "ConvexPolyhedron.face_centroids", f"{fc.getter.file}:{fc.getter.lineno}", "face centroids do not depend on the simplex areas: "
+                "the centroid of a polygonal face is the area-weighted mean of its triangles' centroids, not the mean of its vertices "
+                "(equal only for triangles, parallelograms and regular polygons)")
     # ---------------------------------------------------------------- PAX
     _pax(res, index)
     from ..parallel import report as _copy1
